@@ -74,6 +74,15 @@ MUTANTS = [
     ("mapping_delitem_values_only", "C14", "expressions/scope.py",
      "            binding = super().__getitem__(index)\n            super().__delitem__(index)\n            attrpath_order = self._attrpath_order()",
      "            binding = super().__getitem__(index)\n            attrpath_order = self._attrpath_order()"),
+    ("formal_scope_ignored", "C10", "expressions/identifier.py",
+     "        if identifier.name in scope.parameters:\n            raise ResolutionError(",
+     "        if False and identifier.name in scope.parameters:\n            raise ResolutionError("),
+    ("with_not_weak", "C10", "resolution.py",
+     "            weak_scope.weak = True",
+     "            weak_scope.weak = False"),
+    ("with_not_weak_c11", "C11", "resolution.py",
+     "            weak_scope.weak = True",
+     "            weak_scope.weak = False"),
     ("replace_moves_binding_last", "C19", "cli/manipulations.py",
      "            binding.value = value_expr\n            return\n        target_set[key] = value_expr",
      "            binding.value = value_expr\n            if binding in target_set.attrpath_order:\n                target_set.attrpath_order.remove(binding)\n                target_set.attrpath_order.append(binding)\n            return\n        target_set[key] = value_expr"),
